@@ -38,6 +38,7 @@ package document
 // or a frame over the eleven appends costs minutes of solver time and is left out.)
 //@ func (*Document).createTOCEntryWithFields
 //@ props C13
+//@ appendfacts
 //@ requires 1 <= entry.Level && entry.Level <= 9
 //@ ensures fresh(result) && result.Properties != nil && result.Properties.ParagraphStyle != nil && result.Properties.ParagraphStyle.Val == styTOCEntryId(entry.Level) && styIsTOCEntryId(result.Properties.ParagraphStyle.Val)
 //@ ensures live(result) && live(result.Properties) && live(result.Properties.ParagraphStyle)
@@ -51,6 +52,7 @@ package document
 // id, and the field-end paragraph styled "Normal" (fix 70b909c; it was "2", an id no style carries).
 //@ func (*Document).createWordFieldTOC
 //@ props C13
+//@ appendfacts
 //@ requires config != nil
 //@ requires forall k int :: {entries[k]} 0 <= k && k < len(entries) ==> 1 <= entries[k].Level && entries[k].Level <= 9
 //@ ensures len(result) == 1 && isTOCSDT(result[0]) && fresh(result[0].(*SDT)) && result[0].(*SDT).Content != nil
@@ -95,6 +97,7 @@ package document
 // to the body - a bookmark pair around every collected heading - is not specified here.)
 //@ func (*Document).collectHeadingsAndAddBookmarks
 //@ props C13
+//@ appendfacts
 //@ requires d != nil && d.Body != nil && elemsOK(d.Body.Elements)
 //@ ensures forall k int :: {result[k]} 0 <= k && k < len(result) ==> 1 <= result[k].Level && result[k].Level <= 9
 //@ ensures len(d.Body.Elements) >= old(len(d.Body.Elements))
@@ -111,4 +114,5 @@ package document
 // so every style id it writes is a predefined one.
 //@ func (*Document).AutoGenerateTOC
 //@ props C13
+//@ appendfacts
 //@ requires d != nil && d.Body != nil && elemsOK(d.Body.Elements)
